@@ -51,7 +51,8 @@ struct Sim {
     bool announced[2][2]{};       // [peer][tx]: an inv for it was observed on that peer's wire
     bool in_recent_block[2]{false, false};
     bool confirmed[2]{false, false};
-    bool priv[2]{false, false};   // submitted for private broadcast, not yet returned / submitted normally
+    bool priv[2]{false, false};   // submitted for private broadcast, not yet returned / submitted normally (privacy claim active)
+    bool queued[2]{false, false}; // handed to the private-broadcast queue and not yet received back (may be announced on private connections)
     std::vector<PrivConn> conns;
     int blocks{0};
     // pending getdata bookkeeping for the event being applied
@@ -116,7 +117,7 @@ struct Sim {
                 if (c.n_inv > 1) fs.report("private-conn-second-inv", "more than one inv on private-broadcast connection #" + u(ci));
                 if (v.size() != 1 || !v[0].IsMsgTx()) { fs.report("private-conn-inv-shape", "inv on a private-broadcast connection must carry exactly one MSG_TX item (got " + u(v.size()) + ")"); continue; }
                 int i = tx_index(v[0].hash);
-                if (i < 0 || !priv[i]) fs.report("private-conn-inv-not-private", "private-broadcast connection announced a transaction that is not pending for private broadcast");
+                if (i < 0 || !queued[i]) fs.report("private-conn-inv-not-private", "private-broadcast connection announced a transaction that is not pending for private broadcast");
                 c.inv_tx = i;
                 fs.sh->outcome_classes[4]++;
             } else if (m.type == "tx") {
@@ -168,12 +169,13 @@ struct Sim {
                                                 k == 'M' ? node::TxBroadcast::MEMPOOL_AND_BROADCAST_TO_ALL : node::TxBroadcast::NO_MEMPOOL_PRIVATE_BROADCAST, /*wait_callback=*/false);
             if (r != node::TransactionError::OK) fs.report(std::string("broadcast-failed-") + k, "BroadcastTransaction failed for a valid transaction: " + err);
             if (k == 'M') priv[i] = false; // submitted without private broadcast: no privacy claim any more
-            else { priv[i] = true; fs.sh->outcome_classes[6]++; }
+            else { priv[i] = true; queued[i] = true; fs.sh->outcome_classes[6]++; }
         } else if (k == 'R') {
             int i = ev[1] - '0';
             // "received back from the network": from now on the transaction is public
             const bool was_priv = priv[i];
             priv[i] = false;
+            queued[i] = false;
             net.DeliverAndRun(*Q, pk::MsgTx(*tx[i]));
             if (was_priv) {
                 fs.sh->outcome_classes[7]++;
@@ -242,7 +244,7 @@ struct Sim {
     {
         std::string k;
         for (int i = 0; i < 2; i++) {
-            k += u(in_pool(i)) + u(confirmed[i]) + u(in_recent_block[i]) + u(priv[i]);
+            k += u(in_pool(i)) + u(confirmed[i]) + u(in_recent_block[i]) + u(priv[i]) + u(queued[i]);
             for (int p = 0; p < 2; p++) k += u(entered[i] != 0 && entered[i] <= cut[p]) + u(announced[p][i]);
             k += ",";
         }
@@ -267,8 +269,9 @@ void c39_part_b(bool big, unsigned workers)
     Node n;
     RefLedger L;
     L.AddGenesis(Params().GenesisBlock());
-    SetMockTime(Params().GenesisBlock().nTime + 600 * 1000);
+    SetMockTime(Params().GenesisBlock().nTime + 600 * 105); // the tip must be recent: transactions are ignored during initial block download
     auto hashes = MineEmpty(n, L, 103);
+    if (n.chainman().IsInitialBlockDownload()) { printf("HARNESS-ERROR property=C39 part b: node still in initial block download\n"); exit(2); }
     pk::Net net(n);
     // BroadcastTransaction() reaches the PeerManager through the NodeContext: alias it (released again below)
     n.m_node.peerman.reset(net.peerman.get());
